@@ -270,6 +270,16 @@ impl World for C03 {
         verif_hooks::census_enable(true);
         let (reference, sp0, _) = run_history(case, &json!({"kind": "never"}));
         let mut log = reference.clone();
+        // How many evaluations of the history end in an error (they are part of the workload, but
+        // an unintended error in a generated program silently cuts the rest of it off).
+        for l in reference.iter().filter(|l| l.starts_with("error[")) {
+            o.bump("evaluations_ending_in_error", 1);
+            if std::env::var_os("VERIF_DEBUG_OBS").is_some() {
+                let msg = l.lines().find(|x| x.starts_with("error: ")).unwrap_or(l.lines().next().unwrap_or(""));
+                o.bump(&format!("err.{}", msg.chars().take(120).collect::<String>()), 1);
+            }
+        }
+        o.bump("evaluations_total", case["evals"].as_array().map(|a| a.len()).unwrap_or(0) as u64);
         let text = case["evals"].to_string();
         o.digest = fnv(case.to_string().as_bytes());
         o.sim_time += sp0;
